@@ -221,6 +221,53 @@ func propC09(r *Run) {
 				r.Count("fault:crash")
 			}
 		}
+		// third clause: the same under single I/O faults -- whenever the call still reports success
+		// although one of its system calls failed, the acknowledged change must be just as durable
+		faultSuccess := 0
+		for k := 0; k < sc.nops; k++ {
+			for _, e := range errnosFor[sc.kinds[k]] {
+				g := sc.pre.Clone()
+				g.KeepLog = false
+				k, e := k, e
+				g.Plan = func(seq int, kind, real string) *simfs.Fault {
+					if seq == k {
+						return &simfs.Fault{Errno: e}
+					}
+					return nil
+				}
+				w.use(g)
+				ferr, _ := w.runOp(op)
+				r.Count("fault:" + e.Error())
+				if ferr != nil || op.Kind == "remove" {
+					continue // a reported failure promises nothing (C15 judges it); remove reports nothing
+				}
+				faultSuccess++
+				w.powerLossImages(g, limit/4+1, func(img *simfs.FS, desc string) {
+					images++
+					w.use(img)
+					what := fmt.Sprintf("%s reported success although %s was injected into its op %d/%d (%s); power loss right after, image [%s]", op, e, k, sc.nops, sc.kinds[k], desc)
+					switch op.Kind {
+					case "init", "add", "update":
+						if cls, content := w.classify(op.User, oldContent, hadOld, oldAux, op.PW); cls != fcNew {
+							r.Fail("durability/"+op.Kind+"/success-after-fault-not-durable", "%s: file of %s is %s (%q)", what, op.User, cls, truncate(content, 60))
+						}
+					case "set-admin":
+						wantExt, otherExt := ".user", ".admin"
+						if op.Admin {
+							wantExt, otherExt = ".admin", ".user"
+						}
+						_, okW := img.Get(w.base() + "/" + op.User + wantExt)
+						_, okO := img.Get(w.base() + "/" + op.User + otherExt)
+						if !okW || okO {
+							r.Fail("durability/set-admin/success-after-fault-not-durable", "%s: %s%s present=%v, %s%s present=%v", what, op.User, wantExt, okW, op.User, otherExt, okO)
+						}
+					}
+				})
+			}
+		}
+		if faultSuccess > 0 {
+			r.Count("probe:success-despite-injected-fault")
+		}
 		r.Add("evaluations", images)
 		r.Steps += images
 		r.Nontrivial(fmt.Sprintf("%s|%s|%v", w.cfg.Desc(), op, sc.users))
